@@ -74,6 +74,8 @@ type Eng struct {
 	IgnoreField func(f *types.Var) bool
 	// SharedResult: extra sources — a call whose result hands out shared storage
 	MaxDepth int
+	// StopAt: values of these types are not followed (they belong to a different ownership region)
+	StopAt func(t types.Type) bool
 	cur      *elemSet
 	setRoot  func(*Sink)
 }
@@ -195,6 +197,27 @@ func (e *Eng) Analyze(fn *ssa.Function, src map[ssa.Value]kind) []Sink {
 	return e.run(fn, src, 0, nil).sinks
 }
 
+// Flow is the full outcome of an analysis from explicit sources.
+type Flow struct {
+	Sinks    []Sink
+	Escapes  []Escape
+	Returned bool // a value pointing INTO the shared region may be returned
+	ReturnedFresh bool // a fresh container holding pointers into the region may be returned
+}
+
+// AnalyzeFlow: like AnalyzeShared but also reports returns.
+func (e *Eng) AnalyzeFlow(fn *ssa.Function, vals []ssa.Value) Flow {
+	src := map[ssa.Value]kind{}
+	var el *elemSet
+	for _, v := range vals {
+		if k := kindFor(v.Type()); k != none {
+			src[v] = k
+		}
+	}
+	r := e.run(fn, src, 0, el)
+	return Flow{Sinks: r.sinks, Escapes: r.escapes, Returned: r.retShared == shared, ReturnedFresh: r.retShared == carrier}
+}
+
 // AnalyzeShared: sources given as values that are themselves shared pointers/aggregates.
 func (e *Eng) AnalyzeShared(fn *ssa.Function, vals []ssa.Value) ([]Sink, []Escape) {
 	src := map[ssa.Value]kind{}
@@ -240,6 +263,9 @@ func (e *Eng) run(fn *ssa.Function, src map[ssa.Value]kind, depth int, el *elemS
 	get := func(v ssa.Value) kind { return t[v] }
 	// loadKind: kind of a value of type ty loaded out of base
 	loadKind := func(base ssa.Value, ty types.Type) kind {
+		if e.StopAt != nil && e.StopAt(ty) {
+			return none
+		}
 		k := kindFor(ty)
 		if k == shared && get(base) == carrier && !el.canHold(ty) {
 			return none
